@@ -71,6 +71,16 @@ merged it, in the store's main loop (replayed on the real store: corpus/C12/f25)
 theorem null_batch_member_crashed_the_index_before_the_fix :
     docAllRaw false ([], []) [none] = .panic := rfl
 
+/-- an entry whose payload is not an operation the view knows (`Op.other`: it does not decode, or
+names an operation other than PUT / DEL / PUTALL) changes nothing in the key-value and document views
+and shadows nothing: the scan goes on below it (after the `fix:` commit, finding F35 — the loops used
+to give up with an error at such an entry, on every later update) -/
+theorem entries_that_are_not_operations_change_nothing (acc : List String × KV) (e : Entry)
+    (h : e.op = .other) : kvStep acc e = acc ∧ docStepWith docAllStep acc e = acc := by
+  unfold kvStep docStepWith
+  rw [h]
+  exact ⟨rfl, rfl⟩
+
 /-- no 64-bit length prefix makes the stream reader panic; what it accepts is within the limit -/
 theorem no_length_prefix_panics (len64 : BitVec 64) :
     Codec.frameGuard len64 ≠ .panic ∧
